@@ -671,37 +671,6 @@ def invalidCIDRFailsFast : Bool := %v
 	})
 
 	// ---- small helpers: statement shapes
-	shape := func(d *ast.FuncDecl) []string {
-		var out []string
-		var walk func(list []ast.Stmt, ind string)
-		walk = func(list []ast.Stmt, ind string) {
-			for _, s := range list {
-				switch v := s.(type) {
-				case *ast.IfStmt:
-					init := ""
-					if v.Init != nil {
-						init = src(v.Init) + "; "
-					}
-					out = append(out, ind+"if "+init+src(v.Cond))
-					walk(v.Body.List, ind+"  ")
-					if e, ok := v.Else.(*ast.BlockStmt); ok {
-						out = append(out, ind+"else")
-						walk(e.List, ind+"  ")
-					}
-				case *ast.RangeStmt:
-					out = append(out, ind+"range "+src(v.X))
-					walk(v.Body.List, ind+"  ")
-				case *ast.ForStmt:
-					out = append(out, ind+"for")
-					walk(v.Body.List, ind+"  ")
-				default:
-					out = append(out, ind+src(s))
-				}
-			}
-		}
-		walk(d.Body.List, "")
-		return out
-	}
 	for _, h := range []struct{ recv, name, def string }{
 		{"realIPConfig", "isTrusted", "isTrustedShape"}, {"", "parseOneIP", "parseOneIPShape"},
 		{"", "splitAndTrim", "splitAndTrimShape"}, {"", "clientIPFromRemoteAddr", "remoteAddrShape"},
@@ -751,7 +720,7 @@ def invalidCIDRFailsFast : Bool := %v
 				}
 				return true
 			})
-			lines := shape(d)
+			lines := pxShape(d.Body.List)
 			for i, l := range lines {
 				lines[i] = pxRename(l, names)
 			}
@@ -872,4 +841,124 @@ func pxRename(s string, names map[string]string) string {
 		}
 	}
 	return b.String()
+}
+
+// pxShape renders a statement list as one line per statement, nested blocks indented.
+func pxShape(list []ast.Stmt) []string {
+	var out []string
+	var walk func(list []ast.Stmt, ind string)
+	walk = func(list []ast.Stmt, ind string) {
+		for _, s := range list {
+			switch v := s.(type) {
+			case *ast.IfStmt:
+				init := ""
+				if v.Init != nil {
+					init = src(v.Init) + "; "
+				}
+				out = append(out, ind+"if "+init+src(v.Cond))
+				walk(v.Body.List, ind+"  ")
+				switch e := v.Else.(type) {
+				case *ast.BlockStmt:
+					out = append(out, ind+"else")
+					walk(e.List, ind+"  ")
+				case *ast.IfStmt:
+					out = append(out, ind+"else")
+					walk([]ast.Stmt{e}, ind+"  ")
+				}
+			case *ast.RangeStmt:
+				out = append(out, ind+"range "+src(v.X))
+				walk(v.Body.List, ind+"  ")
+			case *ast.ForStmt:
+				out = append(out, ind+"for")
+				walk(v.Body.List, ind+"  ")
+			case *ast.SwitchStmt:
+				tag := ""
+				if v.Tag != nil {
+					tag = " " + src(v.Tag)
+				}
+				out = append(out, ind+"switch"+tag)
+				for _, c := range v.Body.List {
+					cc := c.(*ast.CaseClause)
+					lab := "default"
+					if len(cc.List) > 0 {
+						var ls []string
+						for _, e := range cc.List {
+							ls = append(ls, src(e))
+						}
+						lab = "case " + strings.Join(ls, ", ")
+					}
+					out = append(out, ind+"  "+lab)
+					walk(cc.Body, ind+"    ")
+				}
+			case *ast.BlockStmt:
+				walk(v.List, ind)
+			default:
+				out = append(out, ind+src(s))
+			}
+		}
+	}
+	walk(list, "")
+	return out
+}
+
+// pxPositional maps receiver -> "recv", parameters -> arg0.., and locals (in order of definition) -> v0..
+func pxPositional(d *ast.FuncDecl, recvName string) map[string]string {
+	names := map[string]string{}
+	if d.Recv != nil && len(d.Recv.List[0].Names) > 0 {
+		names[d.Recv.List[0].Names[0].Name] = recvName
+	}
+	k := 0
+	for _, f := range d.Type.Params.List {
+		for _, n := range f.Names {
+			names[n.Name] = fmt.Sprintf("arg%d", k)
+			k++
+		}
+	}
+	if d.Type.Results != nil {
+		for _, f := range d.Type.Results.List {
+			for _, n := range f.Names {
+				names[n.Name] = "res_" + n.Name
+			}
+		}
+	}
+	nv := 0
+	ast.Inspect(d.Body, func(n ast.Node) bool {
+		def := func(e ast.Expr) {
+			if id, ok := e.(*ast.Ident); ok && id.Name != "_" {
+				if _, dup := names[id.Name]; !dup {
+					names[id.Name] = fmt.Sprintf("v%d", nv)
+					nv++
+				}
+			}
+		}
+		switch v := n.(type) {
+		case *ast.AssignStmt:
+			if v.Tok == token.DEFINE {
+				for _, l := range v.Lhs {
+					def(l)
+				}
+			}
+		case *ast.RangeStmt:
+			if v.Tok == token.DEFINE {
+				if v.Key != nil {
+					def(v.Key)
+				}
+				if v.Value != nil {
+					def(v.Value)
+				}
+			}
+		case *ast.DeclStmt:
+			if gd, ok := v.Decl.(*ast.GenDecl); ok {
+				for _, sp := range gd.Specs {
+					if vs, ok := sp.(*ast.ValueSpec); ok {
+						for _, n := range vs.Names {
+							def(n)
+						}
+					}
+				}
+			}
+		}
+		return true
+	})
+	return names
 }
